@@ -30,7 +30,7 @@ class ForkInstalled:
 
         def fork_op(tape, stack, cache):
             count = F.bytes_to_int(tape.read(1))
-            tsh.E.sert(count >= 0, 'count must not be negative')
+            tsh.E.sert(count >= 0, 'NOP count must not be negative')      # the very text of NOP: messages can be read back by scripts
             items = [stack.get() for _ in range(count)]
             if items and not F.bytes_to_bool(items[0]):
                 if tsh._Capture.log is not None:
